@@ -3559,6 +3559,9 @@ iwrc iwkv_db_set_meta(struct iwdb *db, void *buf, size_t sz) {
   if (!db || !db->iwkv || !buf) {
     return IW_ERROR_INVALID_ARGS;
   }
+  if (db->iwkv->oflags & IWKV_RDONLY) {
+    return IW_ERROR_READONLY;
+  }
   if (!sz) {
     return 0;
   }
@@ -3655,6 +3658,9 @@ iwrc iwkv_del(struct iwdb *db, const struct iwkv_val *key, iwkv_opflags opflags)
   int rci;
   struct iwkv_val ekey;
   struct iwkv *iwkv = db->iwkv;
+  if (iwkv->oflags & IWKV_RDONLY) {
+    return IW_ERROR_READONLY;
+  }
 
   uint8_t nbuf[IW_VNUMBUFSZ];
   iwrc rc = _to_effective_key(db, key, &ekey, nbuf);
@@ -4029,6 +4035,9 @@ IW_EXPORT iwrc iwkv_cursor_seth(
   struct iwdb *db = lx->db;
   struct iwkv *iwkv = db->iwkv;
   struct sblk *sblk = cur->cn;
+  if (iwkv->oflags & IWKV_RDONLY) {
+    return IW_ERROR_READONLY;
+  }
 
   API_DB_WLOCK(db, rci);
   if (!sblk->kvblk) {
@@ -4119,6 +4128,9 @@ iwrc iwkv_cursor_del(struct iwkv_cursor *cur, iwkv_opflags opflags) {
   struct iwdb *db = lx->db;
   struct iwkv *iwkv = db->iwkv;
   IWFS_FSM *fsm = &iwkv->fsm;
+  if (iwkv->oflags & IWKV_RDONLY) {
+    return IW_ERROR_READONLY;
+  }
 
   API_DB_WLOCK(db, rci);
   if (sblk->pnum == 1) { // sblk will be removed
